@@ -197,7 +197,6 @@ pub fn exec(sc: &Scenario) -> Outcome {
     h.sim.preempt_permille = sc.knob("preempt", 0) as u32;
     if let Err(e) = h.boot(&sc.cfg, "a") { return Outcome { verdict: "harness".into(), note: e, ..Default::default() }; }
     let mut m = Multi::new(h, "C18");
-    m.strict_stall = sc.knob("syscall_faults", 0) != 0;
     m.select_in_exec = true;
     let mut seen = 0usize;
     let mut tainted_exec = false;
